@@ -3,7 +3,8 @@
    with the patch: the 66 lib tests pass and the demonstration fails; without it: the demonstration passes.
    Confirmed ones are stored as /verif/seeded/<prop>-<X>/{patch.diff, demo.rs, meta.json}."""
 import glob, json, os, re, shutil, subprocess, sys
-INC = "/verif/seeded/_incoming"
+INC = os.environ.get("MUT_INC", "/verif/seeded/_incoming")
+TAG = os.environ.get("MUT_TAG", "")
 WT = "/tmp/wt-confirm"
 FEAT = ["--offline", "--no-default-features", "--features", "allow_filesystem collisions stroke_planning"]
 ENV = dict(os.environ, CARGO_NET_OFFLINE="true")
@@ -23,7 +24,7 @@ def main():
         prop = os.path.basename(d)
         for diff in sorted(glob.glob(os.path.join(d, "mut*.diff"))):
             letter = re.search(r"mut(\w)\.diff", diff).group(1)
-            name = f"{prop}-{letter}"
+            name = f"{prop}-{TAG}{letter}"
             if only and name not in only and prop not in only:
                 continue
             out_dir = f"/verif/seeded/{name}"
@@ -32,7 +33,7 @@ def main():
             demo = os.path.join(d, f"demo_{prop}_{letter}.rs")
             if not os.path.exists(demo):
                 print(name, "no demo"); continue
-            tname = f"demo_{prop}_{letter}"
+            tname = f"demo_{prop}_{TAG}{letter}"
             sh(["git", "checkout", "--", "."], cwd=WT)
             for f in glob.glob(os.path.join(WT, "tests", "demo_*")):
                 os.remove(f)
